@@ -1,5 +1,6 @@
 import SkopsModel.Generated.Skeletons
 import SkopsModel.Lemmas.Update
+import SkopsModel.Lemmas.UpdateFault
 /-!
 # C16 — `skops update` upgrades old archives without ever endangering the original
 
@@ -79,6 +80,59 @@ theorem crash_safe (cfg : Cfg) (fs : FS) (d : Path) (h : WriteHyp cfg fs d) :
   · unfold update; rw [skeleton_inner, skeleton_main]; exact hw
   · intro k; rw [ht]; exact crash_read cfg fs d h k
 
+/-- `skops update` as translated from the current source, when the file operation reached at countdown `0` fails
+with an I/O error (full disk, quota, file-size limit) instead of taking place -/
+def updateF (cfg : Cfg) (fs : FS) (k : Option Nat) : (World × Sig) × Option Nat :=
+  runF Skops.Generated.updateMain Skops.Generated.updateInner cfg fs k
+
+/-- the fault interpreter is the interpreter of the other theorems when nothing fails -/
+theorem updateF_none (cfg : Cfg) (fs : FS) : updateF cfg fs none = (update cfg fs, none) :=
+  runF_none _ _ cfg fs
+
+/-- **an I/O error instead of a kill**: whichever single file operation of the run fails (`k` counts `mkdir`,
+`create`, one `append` per chunk — the chunking is arbitrary —, `replace`, `rmtree`), the error unwinds through the
+code that publishes the result and still
+* the destination reads either exactly as before or as the complete new archive,
+* every other path outside the temporary directory reads as before (so the input is not altered unless it is the
+  destination),
+* unless the operation that failed is the removal of the temporary directory itself, every path other than the
+  destination reads as before and the directories are as before: nothing remains,
+* and a failure before that removal is reported (`OSError`) with the destination still as before. -/
+theorem io_fault_safe (cfg : Cfg) (fs : FS) (d : Path) (h : WriteHyp cfg fs d) (k : Nat) :
+    ∃ w sig ko, updateF cfg fs (some k) = ((w, sig), ko) ∧
+      (w.fs.read (d.resolve cfg.cwd) = fs.read (d.resolve cfg.cwd) ∨
+        w.fs.read (d.resolve cfg.cwd) = some cfg.chunks.flatten) ∧
+      (∀ q, q ≠ d.resolve cfg.cwd → under (tmpDirOf cfg d) q = false → w.fs.read q = fs.read q) ∧
+      (k ≠ cfg.chunks.length + 3 → (∀ q, q ≠ d.resolve cfg.cwd → w.fs.read q = fs.read q) ∧ w.fs.dirs = fs.dirs) ∧
+      (k < cfg.chunks.length + 3 → sig = .raised "OSError" ∧ w.fs.read (d.resolve cfg.cwd) = fs.read (d.resolve cfg.cwd)) := by
+  obtain ⟨w, sig, ko, hrun, hlt, heq, hgt⟩ := update_fault cfg fs d h k
+  refine ⟨w, sig, ko, ?_, ?_, ?_, ?_, ?_⟩
+  · unfold updateF; rw [skeleton_inner, skeleton_main]; exact hrun
+  · rcases Nat.lt_trichotomy k (cfg.chunks.length + 3) with hk | hk | hk
+    · exact Or.inl ((hlt hk).2.1 _)
+    · right; rw [(heq hk).2]; simp [afterReplace]
+    · right; rw [(hgt hk).2]; exact afterCleanup_read_dest cfg fs d h
+  · intro q hq hu
+    rcases Nat.lt_trichotomy k (cfg.chunks.length + 3) with hk | hk | hk
+    · exact (hlt hk).2.1 q
+    · rw [(heq hk).2]
+      have hqt : tmpOf cfg d ≠ q := by
+        intro he
+        rw [← he, tmp_under] at hu
+        cases hu
+      unfold afterReplace afterDump
+      rw [read_put_other _ _ q _ (Ne.symm hq), read_del_other _ _ q hqt, read_put_other _ _ q _ hqt]
+      rfl
+    · rw [(hgt hk).2]; exact afterCleanup_read_other cfg fs d h q hq
+  · intro hne
+    rcases Nat.lt_trichotomy k (cfg.chunks.length + 3) with hk | hk | hk
+    · exact ⟨fun q _ => (hlt hk).2.1 q, (hlt hk).2.2⟩
+    · exact absurd hk hne
+    · rw [(hgt hk).2]
+      exact ⟨fun q hq => afterCleanup_read_other cfg fs d h q hq, afterCleanup_dirs cfg fs d h⟩
+  · intro hk
+    exact ⟨(hlt hk).1, (hlt hk).2.1 _⟩
+
 /-! ## Non-vacuity and what the repaired defects looked like -/
 
 def fs0 : FS := { dirs := [[], ["w"], ["w", "sub"]], files := [(["w", "old.skops"], [1, 1]), (["w", "sub", "new.skops"], [7])] }
@@ -127,5 +181,22 @@ example :
     let fs := { fs0 with dirs := ["tmp"] :: ["tmp", "tmpdir", "w"] :: ["tmp", "tmpdir", "w", "sub"] :: fs0.dirs }
     let w := (run [] updateProgOld cfg fs).1
     (applyAll fs (w.trace.take 6)).read ["w", "sub", "new.skops"] = some [2] := by decide +kernel
+
+/-- faults on a concrete run (`cfgNested`: 2 chunks, so operations 0…5): a failing write (operation 2) leaves
+everything as before; a failing removal of the temporary directory (operation 5) leaves the new archive in place and
+the directory behind; countdown 6 is past the last operation: the clean run -/
+example : (updateF cfgNested fs0 (some 2)).1.2 = .raised "OSError" ∧
+    (updateF cfgNested fs0 (some 2)).1.1.fs.read ["w", "sub", "new.skops"] = some [7] ∧
+    (updateF cfgNested fs0 (some 2)).1.1.fs.dirs = fs0.dirs ∧
+    (updateF cfgNested fs0 (some 2)).1.1.fs.read ["w", "sub", "tmpdir", "new.skops.tmp"] = none := by decide +kernel
+
+example : (updateF cfgNested fs0 (some 5)).1.2 = .raised "OSError" ∧
+    (updateF cfgNested fs0 (some 5)).1.1.fs.read ["w", "sub", "new.skops"] = some [2, 2, 2] ∧
+    (updateF cfgNested fs0 (some 5)).1.1.fs.isDir ["w", "sub", "tmpdir"] = true := by decide +kernel
+
+example : (updateF cfgNested fs0 (some 6)).1.2 = (update cfgNested fs0).2 ∧
+    (updateF cfgNested fs0 (some 6)).1.1.trace = (update cfgNested fs0).1.trace ∧
+    (updateF cfgNested fs0 (some 6)).1.1.fs.dirs = (update cfgNested fs0).1.fs.dirs ∧
+    (updateF cfgNested fs0 (some 6)).1.1.fs.files = (update cfgNested fs0).1.fs.files := by decide +kernel
 
 end Skops.Properties.C16
